@@ -21,7 +21,7 @@ FILES = {
     "mla/src/lib.rs": ["C01", "C02", "C05", "C08", "C09", "C10", "C12", "C14"],
     "mla/src/helpers.rs": ["C12", "C01", "C15"],
     "mla/src/layers/encrypt.rs": ["C03", "C04", "C11", "C13", "C01", "C06", "C02"],
-    "mla/src/layers/compress.rs": ["C11", "C05", "C01", "C08", "C13", "C14"],
+    "mla/src/layers/compress.rs": ["C11", "C05", "C01", "C08", "C13", "C14", "C20"],
     "mla/src/layers/raw.rs": ["C11", "C08", "C01"],
     "mla/src/layers/position.rs": ["C01", "C09"],
     "mla/src/config.rs": ["C01", "C07"],
